@@ -36,6 +36,40 @@ func genC16() *rapid.Generator[*Spec] {
 		for i := 0; i < nb; i++ {
 			s.Blank = append(s.Blank, []string{"example.com/m/blank", "example.org/ext/blank2"}[i])
 		}
+		if len(s.Pkgs) > 1 && rapid.IntRange(0, 99).Draw(t, "valuepair") < 60 {
+			// one injector that needs values written in several packages (the
+			// injector's own and dependencies): several entries in the value table
+			// whose declaring files lie in directories that sort differently
+			// from layout to layout
+			var ps []*Type
+			args := []Ref{}
+			nv := rapid.IntRange(2, 4).Draw(t, "nvalues")
+			for i := 0; i < nv; i++ {
+				pk := rapid.IntRange(0, len(s.Pkgs)-1).Draw(t, "valuepkg")
+				if i == 0 {
+					pk = 0
+				} else if i == 1 {
+					pk = len(s.Pkgs) - 1
+				}
+				vt := Named(addFreshStruct(s, pk, fmt.Sprintf("ZzV%d", i)))
+				vi := addItem(s, Item{Kind: "value", Out: vt, Tok: 9000 + i})
+				if pk == 0 && rapid.Bool().Draw(t, "direct") {
+					args = append(args, RItem(vi))
+				} else {
+					s.Sets = append(s.Sets, Set{Pkg: pk, Name: fmt.Sprintf("ZzVSet%d", i), Args: []Ref{RItem(vi)}, AliasOf: -1})
+					args = append(args, RSet(len(s.Sets)-1))
+				}
+				ps = append(ps, vt)
+			}
+			vc := Named(addFreshStruct(s, 0, "ZzVC"))
+			ci := addItem(s, Item{Kind: "func", Pkg: 0, Name: "ZzProvideVC", Params: ps, Out: vc})
+			args = append(args, RItem(ci))
+			if rapid.Bool().Draw(t, "shufflevalues") {
+				args = rapid.Permutation(args).Draw(t, "valueorder")
+			}
+			s.Injectors = append(s.Injectors, Injector{Name: "ZzInjectVC", Out: vc, Args: args, Panic: rapid.Bool().Draw(t, "vcpanic")})
+			s.Note = strings.TrimSpace(s.Note + " value-pair")
+		}
 		if rapid.IntRange(0, 99).Draw(t, "copieddecl") < 50 {
 			// a declaration Wire copies into its output, with several distinct
 			// locals that all collide with the name an import takes there
